@@ -1,0 +1,22 @@
+// +build verif
+
+// Read-only accessor used by the external verification harness (/verif, check
+// C16).  Compiled only with -tags verif; nothing here changes behaviour.
+
+package state
+
+import (
+	"github.com/youchainhq/go-youchain/common"
+	"github.com/youchainhq/go-youchain/trie"
+)
+
+// VerifC16AccountLeaves returns every leaf of the account trie as it stands
+// (call it after IntermediateRoot): hashed address -> account RLP.
+func (st *StateDB) VerifC16AccountLeaves() (map[common.Hash][]byte, error) {
+	out := make(map[common.Hash][]byte)
+	it := trie.NewIterator(st.trie.NodeIterator(nil))
+	for it.Next() {
+		out[common.BytesToHash(it.Key)] = common.CopyBytes(it.Value)
+	}
+	return out, it.Err
+}
